@@ -294,7 +294,8 @@ int World::on_accept(KFd &k, void *addr_v, unsigned *addrlen) {
 	Client &cl = clients[ci];
 	KFd &s = g_kernel.alloc_fd(FD_STREAM);
 	KFd &lk = *g_kernel.get(k.fd);  // alloc may have moved the vector
-	s.client = ci; s.sock_family = lk.sock_family;
+	s.client = ci; s.sock_family = lk.sock_family; s.cfg_fail_at = cl.cfg_fail_at; s.cfg_fail_errno = cl.cfg_fail_errno; s.cfg_calls = 0;
+	if (cl.cfg_fail_at) probe("fault:socket_configuration_call_fails");
 	cl.fd = s.fd; cl.accepted = true;
 	struct sockaddr_storage ss; memset(&ss, 0, sizeof ss); socklen_t n = 0;
 	if (lk.sock_family == AF_INET) { auto *a = (struct sockaddr_in *)&ss; a->sin_family = AF_INET; a->sin_port = htons(40000 + ci); inet_pton(AF_INET, cl.origin_ip.c_str(), &a->sin_addr); n = sizeof *a; }
@@ -419,7 +420,7 @@ void World::on_close(KFd &k) {
 				// the daemon gives a faulty peer up when it cannot write to it: an observation, fed to the model as an input (DESIGN.md 5.2)
 				flush_pending();
 				// an add of this peer that nobody was told about did not take effect: settle that before its elements are taken away
-				if (!cl->closing) { probe("faulty_peer_dropped_by_daemon"); resolve_silent_decisions(); model.on_peer_gone(cl->idx, false); cl->closing = true; }
+				if (!cl->closing) { probe("faulty_peer_dropped_by_daemon"); resolve_silent_decisions(); model.on_peer_gone(cl->idx, false); cl->closing = true; { Input gi; gi.t = Input::GONE; gi.c = cl->idx; gi.why = "faulty peer released"; shadow_log(gi); } }
 				cl->expq.clear();
 			}
 			else if (mode == "exact" && !cl->no_expect) { if (!match_close(*cl)) {
@@ -464,6 +465,7 @@ void World::on_alloc_fail(uint64_t index) {
 	trace.tag("allocfail"); trace.u64(index);
 	fault_turn = (long)res.st.batches; faults_fired++;
 	if (index) probe("fault:alloc_failed");
+	for (auto &cl : clients) { cl.c19_broken_by_fault = true; if (cl.c19) cl.no_expect = true; }   // echo endpoint: what a connection that lived through the failure gets back is not predictable
 	if (!started) probe("alloc_failed_during_startup");
 	// the outcome of whatever is being processed now is not predictable: requests outstanding at this moment may stay unanswered (never answered twice)
 	if (mode == "exact") { for (auto &cl : clients) cl.expq.clear(); flush_pending(); mode = "ledger"; }
